@@ -690,7 +690,7 @@ func (fr *Frame) appendBuiltin(x *ssa.Call, s, t *Val, tT types.Type) *Val {
 		if fits != True {
 			// reallocation: a fresh array holding old contents then the new elements
 			var nrow *Term
-			if c1 && c2 {
+			if (c1 && c2) || fr.u.unrollAll > 0 {
 				nrow = fr.copyRange(zero, IntLit(0), oldRow, s.Off, oldCells)
 				nrow = fr.copyRange(nrow, oldCells, srow, t.Off, cells)
 			} else {
